@@ -10,7 +10,7 @@ PROPERTY = "C01"
 RULE = ("Hypothesis draws (crystal spec: Hall number 1..530 with symmetrised random metric and 1-3 orbits | prototype | "
         "centred P1 motif | P1; atom order permuted, rigid rotation, custom masses), an integer supercell matrix "
         "(diagonal, HNF x unimodular, or small-entry, det>=1, natom<=48 quick/96 thorough), primitive matrix choice, "
-        "is_symmetry, is_plusminus, is_diagonal, distance, layout; the harmonic model is a dense random array projected "
+        "is_symmetry, is_plusminus, is_diagonal, is_trigonal, distance, layout; the harmonic model is a dense random array projected "
         "by OUR OWN space-group/permutation/sum-rule projectors. Non-trivial: supercell group has >=2 non-translational "
         "operations, or S non-diagonal, or species interleaved, or compact layout, or is_symmetry=False. Distinct by "
         "hash of the full case spec.")
@@ -31,6 +31,7 @@ def fit_specs(draw, tier):
         is_symmetry=draw(st.sampled_from([True, True, True, False])),
         is_plusminus=draw(st.sampled_from(["auto", True, False])),
         is_diagonal=draw(st.booleans()),
+        is_trigonal=draw(st.sampled_from([False, False, True])),
         distance=draw(st.sampled_from([0.001, 0.01, 0.03, 0.2, 0.5])),
         compact=draw(st.booleans()),
         dense_svecs=draw(st.booleans()),
@@ -67,7 +68,7 @@ def run_fit(spec):
     rng = rng_from(spec["key"])
     fc, nops = dense_fc(scell, rng)
     ph.generate_displacements(distance=spec["distance"], is_plusminus=spec["is_plusminus"],
-                              is_diagonal=spec["is_diagonal"])
+                              is_diagonal=spec["is_diagonal"], is_trigonal=spec.get("is_trigonal", False))
     forces = []
     for d in ph.dataset["first_atoms"]:
         u = np.zeros((n, 3))
@@ -96,7 +97,7 @@ def run_fit(spec):
     ntrans = int(round(np.linalg.det(S))) * (n // (int(round(np.linalg.det(S))) * len(ph.primitive)) if len(ph.primitive) else 1)
     nontriv = (nops // max(1, n // len(ph.primitive)) >= 2) or nondiag or interleaved or spec["compact"] or not spec["is_symmetry"]
     classes = [spec["crystal"]["kind"], "compact" if spec["compact"] else "full", "pm:%s" % spec["is_plusminus"],
-               "nondiag" if nondiag else "diag", "sym" if spec["is_symmetry"] else "nosym", "pmat:" + pm,
+               "nondiag" if nondiag else "diag", "trigonal:%s/diag:%s" % (spec.get("is_trigonal", False), spec["is_diagonal"]), "sym" if spec["is_symmetry"] else "nosym", "pmat:" + pm,
                "ndisp:%d" % min(len(forces), 12)]
     if err > 1e-8:
         return Out(ok=False, classes=classes, info={"err": err},
